@@ -167,6 +167,9 @@ def run(ctx) -> None:
         if m is None:
             raise AnalysisError(f"BKVectors.{mname} vanished")
         r1.instance(m.short)
+        if mname != "find_bk_vectors":
+            from ..sem import inline_private_helpers as _iph
+            m = _iph(idx, m)
         MS = Sem(idx, m)
         mcfg, mdu, mpm = MS.cfg, MS.du, MS.pm
         if mname == "find_bk_vectors":
@@ -188,6 +191,9 @@ def run(ctx) -> None:
             w = [x for x in ast.walk(m.node) if isinstance(x, ast.Call) and call_name(x).endswith(("find_bk_vectors", "get_shell_weights"))]
             ctor = [x for x in ast.walk(m.node) if isinstance(x, ast.Call) and norm(x.func) == "cls" and any(k.arg == "wk" for k in x.keywords)]
             okf = bool(w) and bool(ctor)
+            if not ctor or not w:
+                r1.expect(False, "", m, m.node, f"{mname}: the solver call / the constructor call `cls(wk=…, bk_grid=…)` was not found (also not in inlined private helpers)")
+                continue
             if okf:
                 kw = {k.arg: k.value for k in ctor[0].keywords}
                 for fld in ("wk", "bk_grid"):
